@@ -55,7 +55,11 @@ func runWorld(t *testing.T, o *sim.Outcome, p *GPlan, fr *fresh, exec string, ex
 			if run.Agent != "honest" && len(ob.signs) > 0 {
 				o.Fault("agent_behaviour/" + run.Agent)
 			}
+			if ob.reusedHandler {
+				o.Probe("request_served_by_handler_of_earlier_request")
+			}
 		}
+		w.closeShared()
 		o.SimTimeS += sim.SimNow()
 	})
 	if fail != "" {
@@ -227,7 +231,8 @@ func genEnum(r *sim.Rng, tier string) any {
 		p.Runs = append(p.Runs, mk())
 	}
 	lastRun := mk()
-	lastRun.Handlers = pick(r, [][]string{{"regular"}, {"regular"}, {"stub:fail", "regular"}, {"stub:ok"}, {"regular", "stub:ok"}, {"stub:fail", "stub:ok"}})
+	lastRun.Handlers = pick(r, [][]string{{"regular"}, {"regular"}, {"stub:fail", "regular"}, {"stub:ok"}, {"regular", "stub:ok"}, {"stub:fail", "stub:ok"},
+		{"stub:fail_disabled"}, {"stub:fail_disabled", "stub:fail_typed"}, {"stub:fail_typed", "stub:fail"}, {"stub:fail_disabled", "regular"}})
 	lastRun.StubKeys = r.Range(1, 3)
 	for i := 0; i < r.Range(0, 2); i++ {
 		lastRun.CA.Comments = append(lastRun.CA.Comments, pick(r, []string{"", "c1"}))
